@@ -74,13 +74,27 @@ def make_spec(r, op, method, quick, force=None):
     if kind == "twoclusters":
         spec["cc"] = "1"
         spec["k"] = 3
+    if force.get("nonmetric"):
+        # general (non-metric, indefinite) dissimilarities: the Gaussian kernel of such a matrix is not positive
+        # semidefinite, so with d + 1 >= N - 2 the SELECTED eigenvalues of the diffusion operator include negative ones
+        spec["nonmetric"] = r.below(1 << 60)
+        spec["dseed"] = None
+        spec["decade"] = r.range(0, 5)
     return spec
 
 
 def build_line(spec):
     pts = spec["pts"]
     N = len(pts)
-    Dm = _ll.distance_matrix(pts, spec["metric"])
+    if spec.get("nonmetric") is not None:
+        rr = vlib.SplitMix64(spec["nonmetric"])
+        u = Fraction(spec.get("unit", 1))
+        Dm = [[Fraction(0)] * N for _ in range(N)]
+        for i in range(N):
+            for j in range(i + 1, N):
+                Dm[i][j] = Dm[j][i] = Fraction(rr.range(1, 96), 16) * u
+    else:
+        Dm = _ll.distance_matrix(pts, spec["metric"])
     if spec.get("asym"):
         Dm = [[Dm[i][j] if i <= j else _ll.as_double(Dm[i][j] * Fraction(9, 8)) for j in range(N)] for i in range(N)]
     sel = None
@@ -113,7 +127,13 @@ def build_line(spec):
 
 
 def label(spec):
-    return "%s/%s" % (spec["op"], spec["method"])
+    return "%s/%s%s" % (spec["op"], spec["method"], "/nonmetric" if spec.get("nonmetric") is not None else "")
+
+
+def stat_fn(ctx, spec, line, io, v):
+    if v.get("negsel", "0") not in ("0", ""):
+        ctx.stat("selected-eigenvalue-negative")
+        ctx.stat("selected-eigenvalue-negative:t-%s" % ("odd" if int(spec["t"]) % 2 else "even"))
 
 
 def what_text(spec, text):
@@ -131,7 +151,8 @@ def replay_case(ctx, replay):
 
 
 def correspond(ctx):
-    _ll.generic_correspond(ctx, "c09_lap.cpp", EXE, "C09", plan_fn, build_line, label, what_text, min_points=lambda s: s["d"] + 3)
+    _ll.generic_correspond(ctx, "c09_lap.cpp", EXE, "C09", plan_fn, build_line, label, what_text, min_points=lambda s: s["d"] + 3,
+                           stat_fn=stat_fn)
     ctx.cov["rule"] = ("routine level: compute_laplacian on true k-NN and arbitrary neighbour lists, compute_diffusion_matrix, distances "
                        "L2 (rounded) / L1 (exact) over 6 data families, widths over six decades (half-decade steps) relative to the "
                        "median neighbour distance, entrywise vs the model (2^-30), exact sparsity/symmetry/row-sum structure; public API: "
@@ -159,6 +180,12 @@ def plan_fn(ctx, r, quick):
     s = make_spec(rr.fork(), "embed", "dm", quick, force={"N": 7, "D": 3, "kind": "cloud", "k": 6})
     s["d"] = 6          # Diffusion Map corner d + 1 = N
     specs.append(s)
+    for i in range(12 if quick else 120):
+        n = rr.range(5, 9)
+        s = make_spec(rr.fork(), "embed", "dm", quick, force={"N": n, "D": 2, "kind": "cloud", "k": n - 1, "nonmetric": True})
+        s["d"] = n - 1 - (i % 2)        # d + 1 = N or N - 1
+        s["t"] = 1 + (i // 2) % 6       # odd and even exponents
+        specs.append(s)
     for nm in ("brute", "vptree", "covertree"):
         s = make_spec(rr.fork(), "embed", "le", quick, force={"d": 5, "kind": "cloud", "D": 3})
         s["nm"] = nm
